@@ -284,6 +284,13 @@ pub fn large_policies() -> Vec<P> {
         P::And(vec![key(1), P::Sha256("H1".into())]),
     ];
     let mut out = vec![];
+    // root-level thresholds of six and seven keys (leaf enumeration re-generates flushed sub-policies)
+    for n in [6usize, 7] {
+        for k in 1..=n {
+            out.push(P::Thresh(k, (0..n).map(|i| key(10 + i)).collect()));
+        }
+        out.push(P::Or(vec![(1, key(1)), (1, P::Thresh(2, (0..n).map(|i| key(10 + i)).collect()))]));
+    }
     for n in 3..=5usize {
         for k in 1..=n {
             let t = P::Thresh(k, (0..n).map(|i| key(10 + i)).collect());
